@@ -99,6 +99,42 @@ fn gen_ce(rng: &mut Rng, depth: u32, n_prev: usize, strings: bool) -> CE {
     }
 }
 
+/// every binary operator with the extreme value of INTEGER and of LONG (held by an earlier constant)
+/// on either side and a small, a LONG, a fractional or a negative value on the other
+fn boundary_chains() -> Vec<Vec<Def>> {
+    let l = |v: Variant, t: &str| CE::Lit(v, t.to_string());
+    let neg = |x: CE| CE::Un(false, Box::new(x));
+    let extremes: Vec<CE> = vec![
+        neg(l(Variant::VLong(32768), "32768")),
+        CE::Paren(Box::new(CE::Bin("Minus", "-", Box::new(neg(l(Variant::VLong(2147483647), "2147483647"))), Box::new(l(Variant::VInteger(1), "1"))))),
+        l(Variant::VInteger(32767), "32767"),
+        l(Variant::VLong(2147483647), "2147483647"),
+    ];
+    let mut out = vec![];
+    for ex in &extremes {
+        for (c, t) in BIN.iter() {
+            let others: Vec<CE> = vec![
+                neg(l(Variant::VInteger(1), "1")),
+                l(Variant::VInteger(1), "1"),
+                l(Variant::VLong(100000), "100000"),
+                l(Variant::VSingle(0.5), "0.5"),
+            ];
+            for (j, o) in others.into_iter().enumerate() {
+                let e = if j % 2 == 0 {
+                    CE::Bin(c, t, Box::new(o), Box::new(CE::Ref(0, None)))
+                } else {
+                    CE::Bin(c, t, Box::new(CE::Ref(0, None)), Box::new(o))
+                };
+                out.push(vec![
+                    Def { name: "K1".into(), suffix: None, e: ex.clone() },
+                    Def { name: "K2".into(), suffix: None, e },
+                ]);
+            }
+        }
+    }
+    out
+}
+
 /// parenthesise compound operands so that the source text means the tree
 fn wrap(x: CE) -> CE {
     match x {
@@ -272,15 +308,22 @@ pub fn run(args: &Args) {
     let mut w = CaseWriter::new(&args.out, "c14", HEADER, 400);
     let mut evaluations = 0usize;
     let n = if args.thorough() { 6000 } else { 700 };
+    let mut directed = boundary_chains();
+    directed.reverse();
+    let n = n + directed.len();
     for k in 0..n {
         let strings = k % 7 == 6;
         let n_defs = 1 + rng.below(3) as usize;
         let mut defs: Vec<Def> = vec![];
-        for i in 0..n_defs {
-            let dep = 1 + rng.below(3) as u32;
-            let e = gen_ce(&mut rng, dep, i, strings);
-            let suffix = if rng.chance(1, 4) { Some(if strings { '$' } else { *rng.pick(&['%', '&', '!', '#']) }) } else { None };
-            defs.push(Def { name: format!("K{}", i + 1), suffix, e });
+        if let Some(d) = directed.pop() {
+            defs = d;
+        } else {
+            for i in 0..n_defs {
+                let dep = 1 + rng.below(3) as u32;
+                let e = gen_ce(&mut rng, dep, i, strings);
+                let suffix = if rng.chance(1, 4) { Some(if strings { '$' } else { *rng.pick(&['%', '&', '!', '#']) }) } else { None };
+                defs.push(Def { name: format!("K{}", i + 1), suffix, e });
+            }
         }
         let last = defs.len() - 1;
         let mut head = String::new();
@@ -411,6 +454,6 @@ pub fn run(args: &Args) {
     sum.write(
         &args.out,
         evaluations,
-        "chains of 1-3 CONST definitions (expression depth <= 3 over all 13 binary operators, unary minus and NOT, parentheses, boundary literals of all five types, earlier constants; optional type suffix on the constant). For each chain: checker verdict and the literal replacing a use (value and type) compared with Const.const_chain in Coq; PRINT of the constant bare / with suffix / from a SUB / defined in a SUB compared with each other and with PRINT of the inlined expression; rejections for Overflow / Division by zero compared with the run-time error of the inlined expression. Non-trivial = distinct chains.",
+        "chains of 1-3 CONST definitions (expression depth <= 3 over all 13 binary operators, unary minus and NOT, parentheses, boundary literals of all five types, earlier constants; optional type suffix on the constant), preceded by 208 boundary chains (every binary operator with -32768, -2147483647 - 1, 32767 or 2147483647 held by an earlier constant on either side). For each chain: checker verdict and the literal replacing a use (value and type) compared with Const.const_chain in Coq; PRINT of the constant bare / with suffix / from a SUB / defined in a SUB compared with each other and with PRINT of the inlined expression; rejections for Overflow / Division by zero compared with the run-time error of the inlined expression. Non-trivial = distinct chains.",
     );
 }
